@@ -225,6 +225,8 @@ fn concurrent(ch: &mut Chooser, ctx: &WorkerCtx, scenario: usize) -> ExecResult 
             _ => {}
         }
         lw.w.gates.set_active(&GATES18);
+        let steps: Vec<(&str, usize)> = match scenario { 1 => vec![("A", 1), ("B", 2)], 4 => vec![("A", 2), ("B", 2)], _ => vec![("A", 1), ("B", 1)] };
+        crate::world::choose_budgets(ch, &steps, 6);
         let drivers: Vec<(&str, std::pin::Pin<Box<dyn std::future::Future<Output = ()> + Send>>)> = {
             let mk = |name: &'static str, f: std::pin::Pin<Box<dyn std::future::Future<Output = ()> + Send>>| (name, f);
             let (n1, n2, r1, r2) = (node.clone(), node.clone(), results.clone(), results.clone());
@@ -232,24 +234,28 @@ fn concurrent(ch: &mut Chooser, ctx: &WorkerCtx, scenario: usize) -> ExecResult 
             let _ = (&p2a, &p0b, &p2b);
             match scenario {
                 0 => vec![
-                    mk("A", Box::pin(async move { edp_client::verif::point("drv.step").await; let r = n1.send(&p1a, OwnedTerm::atom("die")).await; r1.lock().unwrap().push(("A.fail".into(), format!("{}", r.is_ok()))); })),
-                    mk("B", Box::pin(async move { edp_client::verif::point("drv.step").await; let r = n2.register(xb.clone(), p2b.clone()).await; r2.lock().unwrap().push(("B.register".into(), format!("{}", r.is_ok()))); })),
+                    mk("A", Box::pin(async move { crate::world::drv_step("A").await; let r = n1.send(&p1a, OwnedTerm::atom("die")).await; r1.lock().unwrap().push(("A.fail".into(), format!("{}", r.is_ok()))); })),
+                    mk("B", Box::pin(async move { crate::world::drv_step("B").await; let r = n2.register(xb.clone(), p2b.clone()).await; r2.lock().unwrap().push(("B.register".into(), format!("{}", r.is_ok()))); })),
                 ],
                 1 => vec![
-                    mk("A", Box::pin(async move { edp_client::verif::point("drv.step").await; let r = n1.send(&p1a, OwnedTerm::atom("die")).await; r1.lock().unwrap().push(("A.fail".into(), format!("{}", r.is_ok()))); })),
-                    mk("B", Box::pin(async move { for i in 1..=2 { edp_client::verif::point("drv.step").await; let r = n2.send(&p0b, OwnedTerm::Integer(i)).await; r2.lock().unwrap().push((format!("B.send{}", i), format!("{}", r.is_ok()))); } })),
+                    mk("A", Box::pin(async move { crate::world::drv_step("A").await; let r = n1.send(&p1a, OwnedTerm::atom("die")).await; r1.lock().unwrap().push(("A.fail".into(), format!("{}", r.is_ok()))); })),
+                    mk("B", Box::pin(async move { for i in 1..=2 { crate::world::drv_step("B").await; let r = n2.send(&p0b, OwnedTerm::Integer(i)).await; r2.lock().unwrap().push((format!("B.send{}", i), format!("{}", r.is_ok()))); } })),
                 ],
                 2 => vec![
-                    mk("A", Box::pin(async move { edp_client::verif::point("drv.step").await; let r = n1.link(&p0a, &p1a).await; r1.lock().unwrap().push(("A.link".into(), format!("{}", r.is_ok()))); })),
-                    mk("B", Box::pin(async move { edp_client::verif::point("drv.step").await; let r = n2.send(&p1b, OwnedTerm::atom("die")).await; r2.lock().unwrap().push(("B.fail".into(), format!("{}", r.is_ok()))); })),
+                    mk("A", Box::pin(async move { crate::world::drv_step("A").await; let r = n1.link(&p0a, &p1a).await; r1.lock().unwrap().push(("A.link".into(), format!("{}", r.is_ok()))); })),
+                    mk("B", Box::pin(async move { crate::world::drv_step("B").await; let r = n2.send(&p1b, OwnedTerm::atom("die")).await; r2.lock().unwrap().push(("B.fail".into(), format!("{}", r.is_ok()))); })),
                 ],
                 3 => vec![
-                    mk("A", Box::pin(async move { edp_client::verif::point("drv.step").await; let r = n1.send_to_name(&xa, OwnedTerm::Integer(7)).await; r1.lock().unwrap().push(("A.send_to_name".into(), format!("{}", r.is_ok()))); })),
-                    mk("B", Box::pin(async move { edp_client::verif::point("drv.step").await; let r = n2.unregister(&xb).await; r2.lock().unwrap().push(("B.unregister".into(), format!("{}", r.is_ok()))); })),
+                    mk("A", Box::pin(async move { crate::world::drv_step("A").await; let r = n1.send_to_name(&xa, OwnedTerm::Integer(7)).await; r1.lock().unwrap().push(("A.send_to_name".into(), format!("{}", r.is_ok()))); })),
+                    mk("B", Box::pin(async move { crate::world::drv_step("B").await; let r = n2.unregister(&xb).await; r2.lock().unwrap().push(("B.unregister".into(), format!("{}", r.is_ok()))); })),
+                ],
+                6 => vec![
+                    mk("A", Box::pin(async move { crate::world::drv_step("A").await; let r = n1.register(xa.clone(), p0a.clone()).await; r1.lock().unwrap().push(("A.register".into(), format!("{}", r.is_ok()))); })),
+                    mk("B", Box::pin(async move { crate::world::drv_step("B").await; let r = n2.register(xb.clone(), p1b.clone()).await; r2.lock().unwrap().push(("B.register".into(), format!("{}", r.is_ok()))); })),
                 ],
                 4 => vec![
-                    mk("A", Box::pin(async move { for i in 1..=2 { edp_client::verif::point("drv.step").await; let _ = n1.send(&p0a, OwnedTerm::Tuple(vec![OwnedTerm::atom("a"), OwnedTerm::Integer(i)])).await; } })),
-                    mk("B", Box::pin(async move { for i in 1..=2 { edp_client::verif::point("drv.step").await; let _ = n2.send(&p0b, OwnedTerm::Tuple(vec![OwnedTerm::atom("b"), OwnedTerm::Integer(i)])).await; } })),
+                    mk("A", Box::pin(async move { for i in 1..=2 { crate::world::drv_step("A").await; let _ = n1.send(&p0a, OwnedTerm::Tuple(vec![OwnedTerm::atom("a"), OwnedTerm::Integer(i)])).await; } })),
+                    mk("B", Box::pin(async move { for i in 1..=2 { crate::world::drv_step("B").await; let _ = n2.send(&p0b, OwnedTerm::Tuple(vec![OwnedTerm::atom("b"), OwnedTerm::Integer(i)])).await; } })),
                 ],
                 _ => {
                     // two callers of a gen_server: each $gen_call answered once to its caller
@@ -258,8 +264,8 @@ fn concurrent(ch: &mut Chooser, ctx: &WorkerCtx, scenario: usize) -> ExecResult 
                     r1.lock().unwrap().push(("refA".into(), format!("{}", den_ref(&ra))));
                     r1.lock().unwrap().push(("refB".into(), format!("{}", den_ref(&rb))));
                     vec![
-                        mk("A", Box::pin(async move { edp_client::verif::point("drv.step").await; let call = OwnedTerm::Tuple(vec![OwnedTerm::atom("$gen_call"), OwnedTerm::Tuple(vec![OwnedTerm::Pid(p0a.clone()), OwnedTerm::Reference(ra2)]), OwnedTerm::atom("qa")]); let _ = n1.send(&gsa, call).await; })),
-                        mk("B", Box::pin(async move { edp_client::verif::point("drv.step").await; let call = OwnedTerm::Tuple(vec![OwnedTerm::atom("$gen_call"), OwnedTerm::Tuple(vec![OwnedTerm::Pid(p1b.clone()), OwnedTerm::Reference(rb2)]), OwnedTerm::atom("qb")]); let _ = n2.send(&gsb, call).await; })),
+                        mk("A", Box::pin(async move { crate::world::drv_step("A").await; let call = OwnedTerm::Tuple(vec![OwnedTerm::atom("$gen_call"), OwnedTerm::Tuple(vec![OwnedTerm::Pid(p0a.clone()), OwnedTerm::Reference(ra2)]), OwnedTerm::atom("qa")]); let _ = n1.send(&gsa, call).await; })),
+                        mk("B", Box::pin(async move { crate::world::drv_step("B").await; let call = OwnedTerm::Tuple(vec![OwnedTerm::atom("$gen_call"), OwnedTerm::Tuple(vec![OwnedTerm::Pid(p1b.clone()), OwnedTerm::Reference(rb2)]), OwnedTerm::atom("qb")]); let _ = n2.send(&gsb, call).await; })),
                     ]
                 }
             }
@@ -276,11 +282,15 @@ fn concurrent(ch: &mut Chooser, ctx: &WorkerCtx, scenario: usize) -> ExecResult 
             settle_local(&lw.w, &probe).await;
             let parked = lw.w.gates.parked();
             if parked.is_empty() { break; }
-            let options: Vec<String> = parked.iter().map(|(_, t, l)| format!("run:{}@{}", t, l)).collect();
+            let mut options: Vec<String> = parked.iter().map(|(_, t, l)| format!("run:{}@{}", t, l)).collect();
+            // two tasks made runnable in the same scheduler tick (either order): without this a task
+            // preempted by its budget would always resume before anybody else is runnable
+            let mut pairs: Vec<(usize, usize)> = vec![];
+            for i in 0..parked.len() { for j in 0..parked.len() { if i != j && parked[i].1 != parked[j].1 { pairs.push((i, j)); options.push(format!("run-together:{}@{}+{}@{}", parked[i].1, parked[i].2, parked[j].1, parked[j].2)); } } }
             let c = ch.choose(&options);
             events.push(options[c].clone());
             res.steps += 1;
-            lw.w.gates.release(parked[c].0);
+            if c < parked.len() { lw.w.gates.release(parked[c].0); } else { let (i, j) = pairs[c - parked.len()]; lw.w.gates.release(parked[i].0); lw.w.gates.release(parked[j].0); }
         }
         lw.w.gates.release_all_and_deactivate();
         settle_local(&lw.w, &probe).await;
@@ -319,6 +329,16 @@ fn concurrent(ch: &mut Chooser, ctx: &WorkerCtx, scenario: usize) -> ExecResult 
                 let delivered = of("p1").iter().filter(|s| *s == "msg:7").count();
                 if (a_ok && delivered != 1) || (!a_ok && delivered != 0) { res.violations.push(("send by name accepted but not delivered exactly once (or delivered though refused)".into(), detail(&format!("ok={} delivered={}", a_ok, delivered)))); }
             }
+            6 => {
+                let a_ok = rs.iter().any(|r| r.0 == "A.register" && r.1 == "true");
+                let b_ok = rs.iter().any(|r| r.0 == "B.register" && r.1 == "true");
+                let w = node.whereis(&x).await;
+                if a_ok == b_ok {
+                    res.violations.push(("two registrations of one free name did not have exactly one winner (a name mapped to two processes)".into(), detail(&format!("A ok={} B ok={}", a_ok, b_ok))));
+                } else if w != Some(if a_ok { p0.clone() } else { p1.clone() }) {
+                    res.violations.push(("registered name does not resolve to the process whose registration succeeded".into(), detail(&format!("whereis(x)={:?}", w.map(|p| format!("{}", den_pid(&p)))))));
+                }
+            }
             4 => {
                 let l0 = of("p0");
                 let a: Vec<&String> = l0.iter().filter(|s| s.contains("'a'")).collect();
@@ -353,7 +373,7 @@ pub fn run(rep: &Report) -> Value {
     }
     let seq_stats: Stats = for_all(rep, "sequential histories", &cases, |c, ctx| run_sequence(c, ctx));
     let mut conc: Vec<(String, Stats)> = vec![];
-    let names = ["fail(p1) || register(x,p2) where x names p1", "fail(p1) || send(p0) x2, p0 linked, p2 monitoring", "link(p0,p1) || fail(p1)", "send_to_name(x) || unregister(x)", "two senders x2 to one process", "two gen_server callers"];
+    let names = ["fail(p1) || register(x,p2) where x names p1", "fail(p1) || send(p0) x2, p0 linked, p2 monitoring", "link(p0,p1) || fail(p1)", "send_to_name(x) || unregister(x)", "two senders x2 to one process", "two gen_server callers", "register(x,p0) || register(x,p1)"];
     let bound = if thorough { 4 } else { 3 };
     for (i, n) in names.iter().enumerate() {
         let st = explore(rep, n, bound, std::time::Duration::from_secs(if thorough { 300 } else { 20 }), |ch, ctx| concurrent(ch, ctx, i));
@@ -372,6 +392,6 @@ pub fn run(rep: &Report) -> Value {
         "sequential": {"histories": seq_stats.executions, "depth": depth, "alphabet": format!("{:?}", alphabet), "distinct_outcomes": seq_stats.distinct_outcomes},
         "concurrent": conc.iter().map(|(n, s)| json!({"scenario": n, "executions": s.executions, "deviation_bound_completed": s.bound_completed, "distinct_outcomes": s.distinct_outcomes, "outcomes": s.outcomes, "unstable_failures_not_reported": s.unstable})).collect::<Vec<_>>(),
         "distinct_outcomes": seq_stats.distinct_outcomes + conc.iter().map(|c| c.1.distinct_outcomes).sum::<usize>(),
-        "rule": format!("(sequential) every history of <= {} operations over an 18-operation alphabet (spawn, register/unregister two names, send by pid and by name, link/unlink, monitor/demonitor, process failure) on a real started Node with instrumented processes, compared step by step and at the end with a reference node model; (concurrent) six two-driver scenarios explored under gate hooks in spawn, registry and exit propagation with a deviation bound of {}", depth, bound),
+        "rule": format!("(sequential) every history of <= {} operations over an 18-operation alphabet (spawn, register/unregister two names, send by pid and by name, link/unlink, monitor/demonitor, process failure) on a real started Node with instrumented processes, compared step by step and at the end with a reference node model; (concurrent) seven two-driver scenarios explored under gate hooks in spawn, registry and exit propagation plus cooperative-budget preemption (each driver operation may be left with 0..5 units of tokio's per-poll budget, which makes it yield at its (k+1)-th resource await) with a deviation bound of {}", depth, bound),
     })
 }
